@@ -49,7 +49,10 @@ F18_WITNESSES = [
 
 def f18_bad(gtext, text, parser):
     from lark import Lark
-    t = sl.stree_of(Lark(gtext, parser=parser).parse(text))
+    try:
+        t = sl.stree_of(Lark(gtext, parser=parser).parse(text))
+    except Exception:
+        return True
     kids = {c[1]: c[2] for c in t[2] if c is not None and c[0] == 'T'}
     return len(kids['b']) != 0 or len(kids['a']) == 0 or any(c[0] != 't' for c in kids['a'])
 
@@ -157,6 +160,8 @@ def check_text(ctx, G, gtext, parsers, oracle, text, ka, mp, stream, key=None):
             got = ('reject', type(ex).__name__)
         except sl.NotShaped as ex:
             got = ('notshaped', str(ex))
+        except Exception as ex:          # not a parse error: the tree builder itself failed
+            got = ('exception', repr(ex)[:200])
         eng = '%s/%s%s' % (parser, lexer, '/' + amb if amb else '')
         tree_nodes = sl.stree_size(got[1]) if got[0] == 'ok' else 0
         ctx.count(stream, key=(gtext, ka, mp, text, eng), nontrivial=tree_nodes >= 2, engine=eng,
@@ -193,6 +198,10 @@ def make_parsers(ctx, gtext, ka, mp, stream):
             parsers[(parser, lexer, amb)] = build(gtext, parser, lexer, amb, ka, mp)
         except LarkError as ex:
             ctx.count(stream + '-construct', engine=parser, refused=type(ex).__name__)
+        except Exception as ex:
+            ctx.violation('e2e-construct', {'grammar': gtext, 'parser': parser, 'lexer': lexer, 'ambiguity': amb,
+                                            'keep_all_tokens': ka, 'maybe_placeholders': mp, 'construct_error': repr(ex)[:200]},
+                          True, 'constructing %s/%s raised %r' % (parser, lexer, ex))
     return parsers
 
 
@@ -216,10 +225,13 @@ def correspond(ctx):
             ctx.count('regress-F18', key=(gtext, parser))
             if f18_bad(gtext, text, parser):
                 f18_present = True
-                t = sl.stree_of(Lark(gtext, parser=parser).parse(text))
+                try:
+                    obs = sl.show(sl.stree_of(Lark(gtext, parser=parser).parse(text)))[:200]
+                except Exception as ex:
+                    obs = repr(ex)[:200]
                 ctx.violation('e2e-shape-F18', {'grammar': gtext, 'text': text, 'parser': parser, 'fixed': 'F18',
-                                                'observed': sl.show(t)}, True,
-                              'rule `a` must keep its tokens and rule `b` must drop them; got %s' % sl.show(t)[:200])
+                                                'observed': obs}, True,
+                              'rule `a` must keep its tokens and rule `b` must drop them; got %s' % obs)
 
     # (c) end to end -----------------------------------------------------------------------------------
     sl.LITS[:] = [c for c in sl.LITS if c != 'a'] if f18_present else sl.ALL_LITS[:]
@@ -317,6 +329,15 @@ def replay(ctx, case):
     w = case['witness']
     if 'fixed' in w:
         return f18_bad(w['grammar'], w['text'], w['parser'])
+    if 'construct_error' in w:
+        from lark.exceptions import LarkError
+        try:
+            build(w['grammar'], w['parser'], w['lexer'], w.get('ambiguity'), w['keep_all_tokens'], w['maybe_placeholders'])
+        except LarkError:
+            return False
+        except Exception:
+            return True
+        return False
     if 'rules' in w and 'text' in w:
         from lark.exceptions import LarkError
         G = rebuild(w['rules'])
@@ -328,7 +349,9 @@ def replay(ctx, case):
         shapes = oracle.parses(w['text'])
         try:
             got = sl.stree_of(p.parse(w['text']))
-        except (LarkError, sl.NotShaped):
+        except LarkError:
+            return w['parser'] not in ('lalr', 'cyk')
+        except Exception:
             return True
         if w.get('ambiguity') == 'explicit' and has_ambig(got):
             return len(shapes) == 1
